@@ -136,7 +136,7 @@ class CounterWalker(Walker):
         Walker.__init__(self, fn, top)
         self.atoms = atoms
         self.seen = set()
-        self.rx = re.compile(r"(?<![\w.>])(__ctr_site_(\d+)_(inc|dec)|" + NORETURN_RX + "|" + PANIC_RX + "|" + RAISE_RX + r")\s*\(")
+        self.rx = re.compile(r"(?<![\w.>])(__ctr_site_(\d+)_(inc|dec|mark)|" + NORETURN_RX + "|" + PANIC_RX + "|" + RAISE_RX + r")\s*\(")
         # locals `int x = e;` assigned nowhere else
         self.defs = {}
         for m in re.finditer(r"(?<![\w.>])(?:int|_Bool|bool)\s+([A-Za-z_]\w*)\s*=(?!=)\s*([^;{}]+);", body):
@@ -366,8 +366,11 @@ def _number_sites(body):
     return re.sub(SITE_RX, rep, body), signs
 
 
-def walk(fn, body, atoms):
+def walk(fn, body, atoms, mark_rx=None):
+    """mark_rx: calls to record as ("mark", 0) events (used by this script only, never emitted to Lean)"""
     text, signs = _number_sites(body)
+    if mark_rx:
+        text = re.sub(mark_rx, lambda m: "__ctr_site_0_mark(), " + m.group(0), text)
     top = _parse_nodes(text.strip()[1:-1])
     w = CounterWalker(fn, top, atoms, text)
     fall, b, c = w.nodes(top, [CState()])
@@ -397,6 +400,22 @@ def extract(tree):
             paths.append((fn, start, kind, [(e[0], tags.index(e[1]), e[2]) if e[0] == "assume" else (e[0], e[1], True) for e in evs]))
         sites.append((fn, signs))
     return {"paths": paths, "functions": [fn for _, fn, _ in FUNCS], "atoms": [(fn, [t for t, _ in a]) for _, fn, a in FUNCS], "sites": sites}
+
+
+def selfpipe_recur(tree):
+    """does janet_ev_handle_selfpipe read again after every successful read?  Every path on which an event was read (`got-event`)
+    returns to a loop head, and every path that starts at a loop head performs the read(2) before it tests anything."""
+    f, fn, atoms = [x for x in FUNCS if x[1] == "janet_ev_handle_selfpipe"][0]
+    body = dict(functions(preprocess(tree, "src/core/" + f))).get(fn)
+    if body is None:
+        raise ExtractError("counter path walk: function %s not found" % fn)
+    ex, _signs, _seen = walk(fn, body, atoms, mark_rx=r"(?<![\w.>])read\s*\(")
+    got = [(kind, start, evs) for kind, start, evs in ex if ("assume", "got-event", True) in evs]
+    heads = [(kind, start, evs) for kind, start, evs in ex if start == "head"]
+    if not got:
+        raise ExtractError("janet_ev_handle_selfpipe: no path on which an event was read (`status > 0`)")
+    return (all(kind == "loop" for kind, _s, _e in got) and bool(heads) and
+            all(evs and evs[0][0] == "mark" for _k, _s, evs in heads))
 
 
 def selfpipe_dec_needs_cb(tree_or_facts):
